@@ -18,6 +18,7 @@ import SharkVerif.Lemmas.LinRegExists
 import SharkVerif.Lemmas.Stats
 import SharkVerif.Lemmas.Linear
 import SharkVerif.Lemmas.LDA
+import SharkVerif.Lemmas.ZCA
 import Mathlib.Tactic.NormNum
 import Mathlib.Tactic.IntervalCases
 namespace SharkVerif.C15
@@ -188,6 +189,23 @@ theorem whitening_output (factor : Nat → (Nat → Nat → Rat) → Nat × (Nat
       rw [← hs]; ring
     rw [rsum_congr this, rsum_mul_left, hC a ha b hb]
     by_cases e : a = b <;> simp [e]
+
+/-- **`NormalizeComponentsZCA`** with a regular covariance: given the eigen-solver specification
+(`Q` with orthonormal columns, `Cov = Q·diag(D)·Qᵀ`) and `s_k = 1/√D_k` specified by
+`s_k²·D_k = 1` (so every `D_k ≠ 0`), the matrix `√t · Q·diag(s)·Qᵀ` the trainer installs maps
+the training data to mean 0 and covariance `t·I_d`.  (For a singular covariance the pinned
+source divides by zero — F-C15-2 — and the repaired one whitens only the range; that case is
+covered by the run-time oracle, not by this theorem.) -/
+theorem zca_output (Q : Nat → Nat → Rat) (D s : Nat → Rat) (sqrtT t : Rat)
+    (bs : List (List Vec)) (d : Nat) (hne : bs.flatten ≠ []) (hs : sqrtT * sqrtT = t)
+    (hQ : ∀ k, k < d → ∀ l, l < d → rsum d (fun i => Q i k * Q i l) = if k = l then 1 else 0)
+    (hcov : ∀ i, i < d → ∀ j, j < d → covariance bs i j = rsum d (fun k => Q i k * D k * Q j k))
+    (hsD : ∀ k, k < d → s k * s k * D k = 1) :
+    let m := whitening (fun _ _ => (d, zcaFactor Q s d)) sqrtT bs d
+    let out := m.applyData d bs
+    ∀ a, a < d → ∀ b, b < d → mean out a = 0 ∧ covariance out a b = if a = b then t else 0 :=
+  whitening_output (fun _ _ => (d, zcaFactor Q s d)) sqrtT t bs d hne hs
+    (fun a ha b hb => zca_factor_spec d Q D s (covariance bs) hQ hcov hsD a b ha hb)
 
 /-- the general fact behind it: covariance of a linear image of the data is `W·Cov·W'ᵀ` -/
 theorem linear_image_covariance (m : LinearModel) (bs : List (List Vec)) (d a b : Nat) (ha : a < m.rows)
